@@ -14,6 +14,8 @@ mod c18;
 mod c12;
 mod c08;
 mod c09;
+mod c01;
+mod c10;
 mod c19;
 mod ring;
 mod sched;
@@ -41,6 +43,8 @@ fn make(prop: &str) -> Option<Box<dyn Interp>> {
         "C08" => Some(Box::new(c08::C08::default())),
         "C09" => Some(Box::new(c09::C09::default())),
         "C15" => Some(Box::new(c08::C08::default())),
+        "C01" => Some(Box::new(c01::C01::default())),
+        "C10" => Some(Box::new(c10::C10::default())),
         "C19" => Some(Box::new(c19::C19::default())),
         "C04" | "C05" | "C06" | "C13" | "C14" => Some(Box::new(ring::Ring::default())),
         _ => None,
